@@ -6,6 +6,7 @@ claims = json.load(open(os.path.join(V, "tools", "claims.json")))
 import glob
 for f in sorted(glob.glob(os.path.join(V, "tools", "claims.d", "*.json"))):
     claims.update(json.load(open(f)))
+approved = set(open(os.path.join(V, "tools", "claimed.txt")).read().split())
 props = [json.loads(l) for l in open(os.path.join(V, "properties.jsonl"))]
 baseline = json.load(open("/root/.vp/BASELINE.json"))["cmd"]
 hooks_commits = claims.get("_fix_commits", [])
@@ -13,7 +14,7 @@ checks, na = [], []
 for p in props:
     pid = p["id"]
     c = claims.get(pid)
-    if c is None or c.get("not_applicable"):
+    if c is None or c.get("not_applicable") or pid not in approved:
         na.append({"property_id": pid, "reason": (c or {}).get("not_applicable", "no Coq model of this property's kernel has been built yet in this revision (design in DESIGN.md section 6); nothing is claimed for it")})
         continue
     checks.append({
